@@ -322,6 +322,22 @@ func c06Run(c *C) {
 				c.Cover("options_without_block_tags")
 			}
 		}
+		// a template compiled in a set with both options ON whose Options are then REPLACED by plain ones renders like
+		// one compiled with default options (whatever tags it contains)
+		{
+			oset, _ := newSet(emptySetFiles)
+			oset.Options.TrimBlocks, oset.Options.LStripBlocks = true, true
+			if otpl, oerr := oset.FromString(src.String()); oerr == nil {
+				otpl.Options = &pongo2.Options{}
+				oout, oxerr := otpl.Execute(ctx)
+				c.Eval(1)
+				if oxerr != nil || oout != whole {
+					c.Fail("concatenation", D{"source": q(src.String()), "output": q(oout), "output_with_default_options": q(whole), "fragments": kinds, "why": "compiled with TrimBlocks+LStripBlocks on the set, then tpl.Options = &pongo2.Options{} (all off)", "error": errStr(oxerr)})
+					return
+				}
+				c.Cover("options_replaced_after_compile")
+			}
+		}
 		c.Nontrivial("seq:" + src.String())
 		if c.WantSample() && len(src.String()) < 160 {
 			c.Sample(D{"kind": "fragments", "source": q(src.String()), "output": q(whole), "fragments": kinds})
@@ -368,12 +384,13 @@ func c06Routes(c *C, s string) bool {
 		fsFiles[strings.TrimPrefix(k, "/")] = v
 	}
 	memSet, _ := newSet(files)
-	fsSet := pongo2.NewSet("chunkfs", pongo2.NewFSLoader(&chunkFS{files: fsFiles, chunk: chunk}))
+	eofWithData := r.Bool()
+	fsSet := pongo2.NewSet("chunkfs", pongo2.NewFSLoader(&chunkFS{files: fsFiles, chunk: chunk, eofWithData: eofWithData}))
 	sets := []struct {
 		name  string
 		set   *pongo2.TemplateSet
 		strip bool
-	}{{"memory loader", memSet, false}, {fmt.Sprintf("FSLoader, reads of at most %d bytes", chunk), fsSet, true}}
+	}{{"memory loader", memSet, false}, {fmt.Sprintf("FSLoader, reads of at most %d bytes, last bytes delivered together with io.EOF: %v", chunk, eofWithData), fsSet, true}}
 	for round := 0; round < 2; round++ {
 		for _, st := range sets {
 			for _, rt := range routes {
